@@ -11,8 +11,8 @@ def b(has, v=None, init=True):
     return {"has": has, "v": v if v is not None else S.MISSING, "init": init}
 
 
-def klass(bases=(), spec=True, decl=(), body=None, key=None, overflow=None, hand=None, post=False):
-    return {"bases": list(bases), "spec": spec, "decl": list(decl), "body": body or {},
+def klass(bases=(), spec=True, decl=(), body=None, key=None, overflow=None, hand=None, post=False, dnc=None):
+    return {"bases": list(bases), "spec": spec, "decl": list(decl), "body": body or {}, "dnc": dnc,          # dnc: do_not_copy argument (True or a list); no effect on values
             "key": {"set": key is not None, "name": key or ""}, "overflow": {"set": overflow is not None, "name": overflow or ""},
             "hand": hand is not None, "params": [{"n": n, "hasd": d is not None, "d": I(d) if d is not None else S.MISSING} for n, d in (hand or [])],
             "post": post}
@@ -24,6 +24,7 @@ HIER = {
     "key_required": ({"K": klass(decl=["k", "v"], body={"k": b(False), "v": b(True, I(0))}, key="k")}, ["K"]),
     "key_default": ({"K": klass(decl=["k", "v"], body={"k": b(True, I(7)), "v": b(True, I(0))}, key="k")}, ["K"]),
     "overflow": ({"O": klass(decl=["a", "extra"], body={"a": b(True, I(1)), "extra": b(False)}, overflow="extra")}, ["O"]),
+    "overflow_init_false": ({"O": klass(decl=["a", "hid", "extra"], body={"a": b(True, I(1)), "hid": b(True, I(2), init=False), "extra": b(False)}, overflow="extra")}, ["O"]),
     "init_false": ({"P": klass(decl=["a", "hid"], body={"a": b(True, I(1)), "hid": b(True, I(2), init=False)}),
                     "C": klass(bases=["P"], decl=["c"], body={"c": b(True, I(3))})}, ["P", "C"]),
     "spec_sub": ({"P": klass(decl=["a", "b"], body={"a": b(True, I(1)), "b": b(False)}),
@@ -60,6 +61,19 @@ HIER = {
     "two_parents_shared": ({"Left": klass(decl=["sh"], body={"sh": b(True, I(100))}),
                             "Right": klass(decl=["sh", "r"], body={"sh": b(False), "r": b(False)}, hand=[("sh", -5), ("r", 2)]),
                             "Both": klass(bases=["Left", "Right"], decl=["c"], body={"c": b(True, I(0))})}, ["Both"]),
+    # __post_init__ defined by a plain subclass (overriding / adding), and reaching a class only through its second spec parent
+    "post_plain_override": ({"P": klass(decl=["a"], body={"a": b(True, I(1))}, post=True),
+                             "D": klass(bases=["P"], spec=False, body={}, post=True)}, ["P", "D"]),
+    "post_plain_adds": ({"P": klass(decl=["a"], body={"a": b(True, I(1))}),
+                         "D": klass(bases=["P"], spec=False, body={}, post=True)}, ["D"]),
+    "post_second_parent": ({"Left": klass(decl=["a"], body={"a": b(True, I(1))}),
+                            "Right": klass(decl=["r"], body={"r": b(True, I(2))}, post=True),
+                            "Both": klass(bases=["Left", "Right"], decl=["c"], body={"c": b(True, I(3))})}, ["Both"]),
+    # do_not_copy settings along the hierarchy change nothing about WHAT is assigned
+    "dnc_parent_child": ({"P": klass(decl=["a", "b"], body={"a": b(True, I(1)), "b": b(False)}, dnc=True),
+                          "C": klass(bases=["P"], decl=["c"], body={"c": b(True, I(3))}, dnc=True),
+                          "D": klass(bases=["P"], decl=["c"], body={"c": b(True, I(3))}, dnc=["a"]),
+                          "E": klass(bases=["P"], decl=["c"], body={"c": b(True, I(3))})}, ["P", "C", "D", "E"]),
     "spec_plain_spec": ({"P": klass(decl=["a"], body={"a": b(True, I(1))}),
                          "D": klass(bases=["P"], spec=False, body={}),
                          "E": klass(bases=["D"], decl=["e"], body={"e": b(True, I(2))})}, ["E"]),
@@ -76,6 +90,8 @@ def source(classes):
                 args.append(f"key={c['key']['name']!r}")
             if c["overflow"]["set"]:
                 args.append(f"init_overflow_attr={c['overflow']['name']!r}")
+            if c.get("dnc"):
+                args.append(f"do_not_copy={c['dnc']!r}")
             out.append("@spec_class" + (f"({', '.join(args)})" if args else ""))
         out.append(f"class {name}" + (f"({', '.join(c['bases'])})" if c["bases"] else "") + ":")
         body = []
@@ -96,7 +112,7 @@ def source(classes):
             sig = ", ".join(f"{p['n']}={p['d']['i']}" if p["hasd"] else p["n"] for p in c["params"])
             body.append(f"def __init__(self, {sig}):\n" + "\n".join(f"    self.{p['n']} = {p['n']} + 1" for p in c["params"]))
         if c["post"]:
-            body.append("def __post_init__(self):\n    POSTS.append({a: getattr(self, a, None) for a in self.__spec_class__.attrs})")
+            body.append(f"def __post_init__(self):\n    POSTS.append(dict({{a: getattr(self, a, None) for a in self.__spec_class__.attrs}}, __hook__={name!r}))")
         if not body:
             body.append("pass")
         out += [textwrap.indent(x, "    ") for x in body]
@@ -159,8 +175,9 @@ def run_cases(job):
                 attrs = {a: alpha(getattr(obj, a, MISSING)) for a in obj.__spec_class__.attrs}
             except Exception as e:  # noqa: BLE001
                 res = type(e).__name__
-            posts = list(ns["POSTS"])
+            posts = [dict(p) for p in ns["POSTS"]]
+            owners = [p.pop("__hook__") for p in posts]
             out.append({"h": name, "c": case["c"], "kws": kws, "positional_key": positional, "res": res,
-                        "attrs": attrs if attrs else {"_": S.MISSING}, "posts": len(posts),
+                        "attrs": attrs if attrs else {"_": S.MISSING}, "posts": len(posts), "post_owners": owners,
                         "post_saw_final": all({a: alpha(v if v is not None else MISSING) for a, v in p.items()} == attrs for p in posts) if res == "ok" else True})
     return out
